@@ -41,3 +41,81 @@ def c17(tier, seed, mult):
                      max_rows=12,
                      gen_kw={"allow": ("fit", "setmerge", "setthr", "setbf", "reset", "refine"), "objects": 0.3, "malformed": 0.0,
                              "weights": {"fit": 3, "refine": 1, "setmerge": 7, "setthr": 1, "setbf": 1, "reset": 2}})
+
+
+def c17_objects(tier, seed, mult):
+    """C17 on merge-function OBJECTS the model does not distinguish (non-default n_max / decay / adaptive, user subclasses
+    that inherit a built-in name): oracle only.  Whatever the estimator held before, `set_merge(name[, tolerance])` must
+    leave it behaving exactly like `BitBirch(merge_criterion=name, tolerance=...)`, and a tolerance chosen earlier must
+    survive every `set_merge` that does not name one (also through criteria that merely carry a tolerance)."""
+    import random as _r
+    import numpy as _np
+    import bblean as _bb
+    from bblean import _merges as M
+    from checklib import SuiteResult
+    rng = _r.Random(seed + 1717)
+    res = SuiteResult("S-C17-OBJECTS")
+    cnt = {"custom_object_then_same_name": 0, "tolerance_kept_through": 0}
+
+    class Greedy(M.ToleranceDiameterMerge):          # inherits name = "tolerance-diameter"
+        def __call__(self, *a):
+            return True
+
+    def probe(est):
+        rs = _np.random.default_rng(5)
+        protos = (rs.random((4, 64)) < 0.4)
+        X = _np.packbits(_np.array([p ^ (rs.random(64) < 0.08) for p in protos for _ in range(12)], dtype=_np.uint8), axis=1)
+        est.fit(X)
+        return est.get_cluster_mol_ids()
+
+    def describe(fn):
+        return (type(fn).__name__, getattr(fn, "tolerance", None), getattr(fn, "decay", None), getattr(fn, "offset", None))
+    n = (60 if tier == "quick" else 1500) * mult
+    for _ in range(n):
+        tol = rng.choice([0.0, 0.05, 0.2, 0.7])
+        thr = rng.choice([0.3, 0.5, 0.65])
+        kind = rng.choice(["nonadaptive", "nmax", "subclass", "radius-nonadaptive"])
+        if kind == "nonadaptive":
+            obj, name = M.ToleranceDiameterMerge(tol, adaptive=False), "tolerance-diameter"
+        elif kind == "nmax":
+            obj, name = M.ToleranceDiameterMerge(tol, n_max=10, decay=0.5), "tolerance-diameter"
+        elif kind == "subclass":
+            obj, name = Greedy(tol), "tolerance-diameter"
+        else:
+            obj, name = M.ToleranceRadiusMerge(tol, adaptive=False), "tolerance-radius"
+        give_tol = rng.choice([None, tol, 0.33])
+        e1 = _bb.BitBirch(merge_criterion=obj, threshold=thr, branching_factor=rng.choice([3, 50]))
+        e1.set_merge(name) if give_tol is None else e1.set_merge(name, tolerance=give_tol)
+        want_tol = tol if give_tol is None else give_tol
+        e2 = _bb.BitBirch(merge_criterion=name, tolerance=want_tol, threshold=thr, branching_factor=e1.branching_factor)
+        cnt["custom_object_then_same_name"] += 1
+        res.evaluations += 1
+        res.nontrivial += 1
+        case = {"object": kind, "tolerance": tol, "threshold": thr, "set_merge": [name, give_tol]}
+        if describe(e1._merge_accept_fn) != describe(e2._merge_accept_fn) or probe(e1) != probe(e2):
+            res.failures.append({"signature": "C17:set_merge-by-name-differs-from-the-constructor-route",
+                                 "what": f"after set_merge({name!r}, tolerance={give_tol}) on an estimator holding a {kind} object: "
+                                         f"{describe(e1._merge_accept_fn)} vs constructor {describe(e2._merge_accept_fn)}", "case": case})
+            break
+        # a chosen tolerance survives set_merge calls that do not name one, whatever carries it in between
+        path = [rng.choice(["tolerance-diameter", "tolerance-radius", "tolerance-legacy"])]
+        path += rng.sample(["never-merge", "tolerance-radius", "tolerance-legacy", "tolerance-diameter", "obj"], rng.randint(1, 3))
+        path.append(rng.choice(["tolerance-diameter", "tolerance-radius", "tolerance-legacy"]))
+        e3 = _bb.BitBirch(merge_criterion=path[0], tolerance=0.41, threshold=thr)
+        for step in path[1:]:
+            if step == "obj":
+                e3.set_merge(M.ToleranceRadiusMerge(0.41))
+            else:
+                e3.set_merge(step)
+            if rng.random() < 0.3:
+                e3.set_merge(threshold=rng.choice([0.2, 0.6]))
+        cnt["tolerance_kept_through"] += 1
+        res.evaluations += 1
+        if e3.tolerance != 0.41:
+            res.failures.append({"signature": "C17:set_merge-without-tolerance-changed-the-tolerance",
+                                 "what": f"tolerance 0.41 became {e3.tolerance} along {path}", "case": {"path": path}})
+            break
+        if len(res.samples) < 2:
+            res.samples.append(case | {"path": path})
+    res.counters = cnt
+    return res
